@@ -132,4 +132,11 @@ CHECKS = {
          "exception naming the first bad field in declaration order, with the offending input value and holder class; nothing rejected is replaced by None "
          "or a default; the input is unchanged; no NameError/SyntaxError in the chain.",
     note="trusted base: vmc/ref.py decode per field; open findings attributed by deviation models (Union None fallback, NamedTuple IndexError swallow) or scenario facts (discriminator TypeError, empty dataclass)"),
+ "C04": dict(engine="E1 schema-space", design_ref="6/C04",
+    technique="exhaustive enumeration of formats x schemas x values inside each format's representable subset x entry points, with the format's own parser as second oracle",
+    text="For json, orjson, yaml, msgpack and toml x every schema of depth <= 1 (2 in thorough, plus a depth-2 slice in quick) wrapped in a dataclass "
+         "field x every value the format can represent x {mixin methods, Encoder/Decoder objects, one-shot functions}: decode(encode(v)) is `same` as v; "
+         "the document parsed by json/orjson/PyYAML/msgpack/tomllib equals the reference basic form with the format's native types left native and TOML "
+         "null fields absent; the three entry points produce the identical document.",
+    note="the representable-subset predicate is part of the enumerator and printed in the evidence; values outside it are counted per format, not judged"),
 }
